@@ -103,7 +103,10 @@ def wire_forms(m):
 
 
 def observe(emitted, raised=None):
-    return {"raised": raised, "emitted": [wire_forms(m) for m in emitted]}
+    o = {"raised": raised, "emitted": [wire_forms(m) for m in emitted]}
+    if _EMITTED_HOOK is not None:
+        _EMITTED_HOOK(list(emitted))  # after the wire forms were taken
+    return o
 
 
 # ---------------------------------------------------------------------------------------------
@@ -182,6 +185,34 @@ class _Subst(ast.NodeTransformer):
         return node
 
 
+def _local_names(node, parents):
+    """parameters and names bound inside the functions that enclose `node`: the only names of a literal that
+    are HOLES (everything else must resolve in the real module's globals or builtins)"""
+    out = set()
+    p = node
+    while p in parents:
+        p = parents[p]
+        if isinstance(p, (ast.FunctionDef, ast.AsyncFunctionDef, ast.Lambda)):
+            a = p.args
+            for x in a.posonlyargs + a.args + a.kwonlyargs + ([a.vararg] if a.vararg else []) + ([a.kwarg] if a.kwarg else []):
+                out.add(x.arg)
+            if not isinstance(p, ast.Lambda):
+                for n in ast.walk(p):
+                    if isinstance(n, ast.Name) and isinstance(n.ctx, ast.Store):
+                        out.add(n.id)
+                    elif isinstance(n, ast.ExceptHandler) and n.name:
+                        out.add(n.name)
+                    elif isinstance(n, ast.alias) and isinstance(parents.get(n), (ast.Import, ast.ImportFrom)) and parents.get(n) is not None \
+                            and _enclosing_function(parents[n], parents) is not None:
+                        pass  # function-level imports resolve at run time; handled by the driver
+        elif isinstance(p, (ast.ListComp, ast.SetComp, ast.DictComp, ast.GeneratorExp)):
+            for g in p.generators:
+                for n in ast.walk(g.target):
+                    if isinstance(n, ast.Name):
+                        out.add(n.id)
+    return out
+
+
 def _inline_at_call_sites(lit, fn, tree, parents):
     """A dict literal inside a PRIVATE builder function (`_error_message(id, code, text)`) whose free names
     are that function's parameters: for every call of the builder in the same file, the literal with the
@@ -227,7 +258,7 @@ def _inline_at_call_sites(lit, fn, tree, parents):
                 else:
                     return []
         node = ast.fix_missing_locations(_Subst(binding).visit(copy.deepcopy(lit)))
-        out.append((_qualname(call, parents), node))
+        out.append((_qualname(call, parents), node, _local_names(call, parents)))
     return out
 
 
@@ -250,15 +281,16 @@ def literal_sites():
             if isinstance(n, ast.Dict) and any(isinstance(k, ast.Constant) and k.value == "jsonrpc" for k in n.keys):
                 qual = _qualname(n, parents)
                 inlined = _inline_at_call_sites(n, _enclosing_function(n, parents), tree, parents)
-                variants = [(f"{qual}<-{caller}", node) for caller, node in inlined] or [(qual, n)]
-                for q, node in variants:
+                variants = [(f"{qual}<-{caller}", node, loc) for caller, node, loc in inlined] or [(qual, n, _local_names(n, parents))]
+                for q, node, loc in variants:
                     keys = "+".join(sorted(str(k.value) for k in node.keys if isinstance(k, ast.Constant) and k.value != "jsonrpc"))
-                    found.append((getattr(node, "lineno", n.lineno), q, keys, node))
+                    found.append((getattr(node, "lineno", n.lineno), q, keys, node, loc))
         found.sort(key=lambda t: (t[1], t[0]))
         counts = {}
-        for _, qual, keys, node in found:
+        for _, qual, keys, node, loc in found:
             k = counts[(qual, keys)] = counts.get((qual, keys), 0) + 1
             rel = str(f.relative_to(root))
+            node._verif_locals = loc
             out.append((f"literal:{rel}:{qual}:{keys}:{k}", node, f))
     return out
 
@@ -317,7 +349,7 @@ def discover():
         names.append("json_rpc_message.JSONRPCMessageWrapper")
     names += [n for n, _, _ in literal_sites()]
     # scenarios on shared objects (not emitters of their own: sequences of the emitters above)
-    names += ["seq:shared-params", "seq:handler-reuse", "seq:batch-reuse"]
+    names += ["seq:shared-params", "seq:handler-reuse", "seq:batch-reuse", "seq:twins"]
     names += ["transport:stdio-writer", "transport:http-post", "transport:sse-post"]
     return names
 
@@ -487,7 +519,9 @@ def d_send_message(a):
 
     async def go(r, w):
         kw = {}
-        if a.get("mid") is not None:
+        if a.get("mid_id") is not None:
+            kw["message_id"] = idval(a["mid_id"])  # an id of either JSON type
+        elif a.get("mid") is not None:
             kw["message_id"] = s_(a["mid"])
         if a.get("progress"):
             kw["progress_callback"] = cb
@@ -630,6 +664,95 @@ def d_seq_handler_reuse(a):
     return out
 
 
+def d_seq_twins(a):
+    """TWO or three instances of one stateful class alive in one process, driven alternately with EQUAL ids and names;
+    then each instance's share of the steps is replayed on a fresh instance of its own.  What an instance emits must not
+    depend on the presence of the others.  kinds: ProtocolHandler, MCPServer, BatchProcessor."""
+    from chuk_mcp.protocol.features.batching import BatchProcessor
+    from chuk_mcp.server.server import MCPServer
+
+    kind, n = a["kind"], int(a.get("n", 2))
+    text = s_(a.get("text") or [120])
+    payload = _obj(a.get("payload"))
+
+    def make(i):
+        if kind == "handler":
+            h = _handler()
+
+            async def ok(message, session_id, i=i):
+                return h.create_response(message.id, {"instance": i, "p": payload}), None
+
+            async def bad(message, session_id):
+                raise make_exc(a.get("exc"), text)
+
+            h.register_method("x/ok", ok)
+            h.register_method("x/bad", bad)
+            return h
+        if kind == "server":
+            srv = MCPServer("verif", version=str(i))
+
+            async def tool(i=i, **kw):
+                return {"instance": i, "p": payload}
+
+            async def tool_bad(**kw):
+                raise make_exc(a.get("exc"), text)
+
+            async def res(i=i):
+                return f"{i}:{text}"
+
+            srv.register_tool("t", tool, {"type": "object"}, description=str(i))
+            srv.register_tool("bad", tool_bad, {"type": "object"})
+            srv.register_resource("file:///r", res, name=str(i))
+            return srv.protocol_handler
+        return BatchProcessor(["2025-03-26", "2025-06-18", "2024-11-05"][i % 3])
+
+    def run(objs, steps):
+        out = []
+        for i, step, idt in steps:
+            o = objs[i]
+            if kind == "batch":
+                def handler(item):
+                    if item.get("method") == "bad":
+                        raise make_exc(a.get("exc"), text)
+                    return None
+                r = o.process_message_data([{"jsonrpc": "2.0", "id": idval(idt), "method": step}], handler)
+                items = [r] if isinstance(r, dict) else [x for x in (r or []) if isinstance(x, dict)]
+                out += [(i, x) for x in items]
+                continue
+            params = None
+            if step == "tools/call":
+                params = {"o": [[J.cps("name"), J.S("t")], [J.cps("arguments"), {"o": []}]]}
+            elif step == "tools/call:bad":
+                step, params = "tools/call", {"o": [[J.cps("name"), J.S("bad")]]}
+            elif step == "resources/read":
+                params = {"o": [[J.cps("uri"), J.S("file:///r")]]}
+            elif step == "initialize":
+                params = {"o": [[J.cps("protocolVersion"), J.S("2025-06-18")], [J.cps("clientInfo"), {"o": [[J.cps("name"), J.S(text)]]}]]}
+            msg = _incoming({"id": idt, "method": J.cps(step), "params": params})
+            r, exc = _run(lambda o=o, msg=msg: o.handle_message(msg))
+            if r is not None and r[0] is not None:
+                out.append((i, r[0]))
+        return out
+
+    steps = [(st[0] % n, st[1], st[2]) for st in a["steps"]]
+    together = run([make(i) for i in range(n)], steps)
+
+    def dumped(x):
+        d = copy.deepcopy(x if isinstance(x, dict) else x.model_dump(exclude_none=True))
+        if isinstance(d.get("error"), dict):
+            d["error"].pop("message", None)  # exception texts may carry object addresses
+        return d
+
+    independent, detail = True, None
+    for i in range(n):
+        alone = run({i: make(i)}, [st for st in steps if st[0] == i])
+        mine = [dumped(x) for j, x in together if j == i]
+        if mine != [dumped(x) for _, x in alone]:
+            independent, detail = False, f"instance {i} of {n} answers differently when other instances are alive"
+            break
+    return [x for _, x in together], None, {"independent": independent, "detail": detail}
+
+
 def d_seq_batch_reuse(a):
     """one BatchProcessor used for several batches, its protocol version changed in between"""
     from chuk_mcp.protocol.features.batching import BatchProcessor
@@ -646,6 +769,14 @@ def d_seq_batch_reuse(a):
     for step in a["steps"]:
         if step.startswith("version:"):
             bp.update_protocol_version(step[8:])
+            continue
+        if step == "mixed":  # good, failing, good, failing twice, good
+            items = [{"jsonrpc": "2.0", "id": idval(i), "method": m_} for i in a["ids"] for m_ in ("ping", "bad", "ping", "bad", "bad", "ping")]
+            r = bp.process_message_data(items, handler)
+            if isinstance(r, dict):
+                out.append(r)
+            elif isinstance(r, list):
+                out += [x for x in r if isinstance(x, dict)]
             continue
         items = [{"jsonrpc": "2.0", "id": idval(i), "method": step} for i in a["ids"]]
         r = bp.process_message_data(items, handler)
@@ -665,7 +796,8 @@ class AppError(Exception):
 
 
 EXC_KINDS = ["runtime", "value", "key-tuple", "unicode-decode", "object-arg", "bytes-arg", "set-arg", "no-args",
-             "app", "app-object", "os", "nested", "mixed-args", "exc-arg", "bad-str", "empty-str"]
+             "app", "app-object", "os", "nested", "mixed-args", "exc-arg", "bad-str", "empty-str",
+             "type", "key", "index", "attribute", "recursion", "plain", "lookup", "assertion", "stop-iteration", "timeout", "unicode-encode"]
 
 
 def make_exc(kind, text):
@@ -714,6 +846,15 @@ def make_exc(kind, text):
         return Unprintable(text)
     if kind == "empty-str":
         return ValueError("")
+    simple = {"type": TypeError, "key": KeyError, "index": IndexError, "attribute": AttributeError, "recursion": RecursionError,
+              "plain": Exception, "lookup": LookupError, "assertion": AssertionError, "stop-iteration": StopIteration, "timeout": TimeoutError}
+    if kind in simple:
+        return simple[kind](text)
+    if kind == "unicode-encode":
+        try:
+            "\ud800".encode("utf-8")
+        except UnicodeEncodeError as ex:
+            return ex
     raise ValueError(f"unknown exception kind {kind}")
 
 
@@ -763,6 +904,17 @@ def d_handle_message(a):
         async def custom(message, session_id):
             return h.create_response(message.id, payload), None
         h.register_method(s_(a["method"]), custom)
+    elif sc in ("reentrant", "reentrant-raises"):
+        from chuk_mcp.protocol.messages.json_rpc_message import parse_message as _pm
+
+        async def custom(message, session_id):  # noqa: F811
+            inner, _ = await h.handle_message(_pm({"jsonrpc": "2.0", "id": "inner", "method": "ping"}))
+            nested.append(inner)
+            if sc == "reentrant-raises":
+                raise make_exc(a.get("exc"), s_(a.get("text") or [120]))
+            return h.create_response(message.id, payload), None
+        nested = []
+        h.register_method(s_(a["method"]), custom)
     elif sc == "custom-raises":
         async def custom(message, session_id):  # noqa: F811
             raise make_exc(a.get("exc"), s_(a.get("text") or [98, 111, 111, 109]))
@@ -774,6 +926,8 @@ def d_handle_message(a):
         msg = _incoming(a)
     r, exc = _run(lambda: h.handle_message(msg))
     out = [r[0]] if r is not None and r[0] is not None else []
+    if sc in ("reentrant", "reentrant-raises"):
+        out += [x for x in nested if x is not None]
     return out, exc
 
 
@@ -788,7 +942,11 @@ def d_handler_create_error_response(a):
 def d_mcpserver(a):
     from chuk_mcp.server.server import MCPServer
 
-    srv = MCPServer("verif")
+    if a.get("opts"):
+        from chuk_mcp.protocol.types.capabilities import ServerCapabilities
+        srv = MCPServer(s_(a.get("text") or [118]) or "v", version="9.9.9-\u00e9", capabilities=ServerCapabilities())
+    else:
+        srv = MCPServer("verif")
     payload = _obj(a.get("payload"))
     text = s_(a.get("text") or [120])
 
@@ -986,26 +1144,42 @@ def literal_driver(node, path):
         raise ValueError(role)
 
     dynamic_keys = [k for k in node.keys if not isinstance(k, ast.Constant)]
+    local_names = getattr(node, "_verif_locals", None)
+    modname = "chuk_mcp." + ".".join(path.relative_to(core.REPO / "src" / "chuk_mcp").with_suffix("").parts)
+    if modname.endswith(".__init__"):
+        modname = modname[: -len(".__init__")]
 
     def drive(a):
         if dynamic_keys:
             raise SkippedLiteral(f"the literal at {path.name}:{node.lineno} has a member whose name is computed "
                                  f"({ast.unparse(dynamic_keys[0])}); its shape is decided by its callers")
+        import builtins
+
+        # Everything that is not a parameter / local of the enclosing function(s) is looked up where the real code
+        # looks it up: in the module's own globals (module constants, imported names, classes) and the builtins.
+        try:
+            glob = dict(vars(importlib.import_module(modname)))
+        except Exception as ex:  # noqa: BLE001
+            raise UnknownEmitter(f"the module of the literal at {path.name}:{node.lineno} cannot be imported: {type(ex).__name__}")
         known = literal_env(a)
         text = s_(a.get("text") or [120])
         payload = _obj(a.get("payload")) if a.get("payload") is not None else {}
-        env, guess = dict(SAFE_BUILTINS), []
+        env, guess = {}, []
         for n in free:
+            is_local = local_names is None or n in local_names
+            if not is_local:
+                if n in glob or hasattr(builtins, n):
+                    continue  # the real value is used
+                raise UnknownEmitter(f"the literal at {path.name}:{node.lineno} refers to {n!r}, which is neither a local of its function "
+                                     f"nor defined in {modname}: not drivable")
             if n in known:
                 env[n] = known[n]
-            elif n in SAFE_BUILTINS:
                 continue
+            role = roles.get(n) or ("object" if _used_as_object(node, n) else None) or _role_by_name(n)
+            if role is None:
+                guess.append(n)
             else:
-                role = roles.get(n) or ("object" if _used_as_object(node, n) else None) or _role_by_name(n)
-                if role is None:
-                    guess.append(n)
-                else:
-                    env[n] = value_for(role, a, text, payload)
+                env[n] = value_for(role, a, text, payload)
         trials = [()]
         for n in guess:
             trials = [t + ((n, r),) for t in trials for r in ("payload", "str", "int")]
@@ -1015,20 +1189,23 @@ def literal_driver(node, path):
             for n, r in t:
                 e2[n] = value_for(r, a, text, payload)
             try:
-                v = eval(code, {"__builtins__": {}}, e2)  # noqa: S307 - the library's own literal
+                v = eval(code, glob, e2)  # noqa: S307 - the library's own literal, in the library's own namespace
                 J.of_py(v)  # a wrong guess may put a stand-in where a JSON value belongs
                 return [v]
             except Exception as ex:  # noqa: BLE001
                 last = ex
                 if not guess:
                     break
-        if not guess and not any(n not in known and n not in SAFE_BUILTINS for n in free):
-            # only names the harness knows: the literal itself misbehaves -> let the oracle see it
-            return [eval(code, {"__builtins__": {}}, env)]  # noqa: S307
+        if not guess and all(n in known for n in env):
+            # only stand-ins the harness knows: the literal itself misbehaves -> let the oracle see it
+            return [eval(code, glob, env)]  # noqa: S307
         raise SkippedLiteral(f"the literal at {path.name}:{node.lineno} could not be evaluated with heuristic bindings "
-                             f"for {[n for n in free if n not in known and n not in SAFE_BUILTINS]}: {type(last).__name__}")
+                             f"for the locals {sorted(n for n in env if n not in known) + guess}: {type(last).__name__}")
 
     drive.keys = sorted(k.value for k in node.keys if isinstance(k, ast.Constant))
+    # the id position holds a LOCAL name (the id in hand), not a module constant
+    drive.id_direct = any(isinstance(k, ast.Constant) and k.value == "id" and isinstance(v, ast.Name) and (local_names is None or v.id in local_names)
+                          for k, v in zip(node.keys, node.values))
     return drive
 
 
@@ -1115,6 +1292,10 @@ def _inner(a):
         return [_DumpOnly(d_create_request(a)[0])]
     if kind == "list":
         return [[d_create_request(a)[0].model_dump(exclude_none=True), d_create_notification(a)[0].model_dump(exclude_none=True)]]
+    if kind == "big-between-small":  # one message far above every buffer (64 KiB chunks) between two small ones
+        big = "x\u00e9" * (int(a.get("n", 100_000)) // 2)
+        return [m.create_request(method_of(a), {"i": 1}, id=1), m.create_request(method_of(a), {"blob": big, "n": None}, id=idv if idv is not None else 2),
+                m.create_notification(method_of(a), {"i": 3})]
     if kind == "burst":  # n messages in a row through one transport object (stream capacity is 100)
         base = d_create_request(a)[0].model_dump(exclude_none=True)
         return [dict(base, id=i) if i % 2 else m.create_request(method_of(a), params, id=i) for i in range(int(a.get("n", 101)))]
@@ -1239,7 +1420,11 @@ def d_http_post(a):
     real, Client, seen = _http_capture(mod, respond)
 
     async def main():
-        t = mod.StreamableHTTPTransport(StreamableHTTPParameters(url="http://verif.invalid/mcp"))
+        kw = {}
+        if a.get("opts"):
+            kw = dict(headers={"X-Trace": "t-1", "Authorization": "Basic x"} if a["opts"] == 2 else {"X-A": "b"},
+                      bearer_token="tok", session_id="sess-1", timeout=0.5, user_agent="verif/1")
+        t = mod.StreamableHTTPTransport(StreamableHTTPParameters(url="http://verif.invalid/mcp", **kw))
         for msg in msgs:
             await t._send_message_internal(msg)
 
@@ -1273,7 +1458,12 @@ def d_sse_post(a):
         return httpx.Response(202)
 
     async def main():
-        t = mod.SSETransport(SSEParameters(url="http://verif.invalid"))
+        kw = dict(headers={"X-A": "b"}, timeout=0.5, bearer_token="tok") if a.get("opts") else {}
+        try:
+            params = SSEParameters(url="http://verif.invalid", **kw)
+        except Exception:  # noqa: BLE001 - an option this version does not know
+            params = SSEParameters(url="http://verif.invalid")
+        t = mod.SSETransport(params)
         t._send_client = httpx.AsyncClient(transport=httpx.MockTransport(handler))
         t._message_url = "http://verif.invalid/messages"
         try:
@@ -1321,6 +1511,7 @@ def drivers():
         "seq:shared-params": ("seq", d_seq_shared_params),
         "seq:handler-reuse": ("seq", d_seq_handler_reuse),
         "seq:batch-reuse": ("seq", d_seq_batch_reuse),
+        "seq:twins": ("seq", d_seq_twins),
         "server.ProtocolHandler.handle_message": ("server", d_handle_message),
         "server.ProtocolHandler.create_response": ("ctor", d_handler_create_response),
         "server.ProtocolHandler.create_error_response": ("ctor", d_handler_create_error_response),
@@ -1357,8 +1548,117 @@ def drivers():
     return D
 
 
+class FormattingHandler(__import__("logging").Handler):
+    """what a host's handler does: it formats every record (a NullHandler never does, which hides %-style argument
+    mismatches and failing __str__ / __repr__ of logged arguments)"""
+
+    errors: list = []
+
+    def emit(self, record):
+        self.format(record)
+
+    def handleError(self, record):
+        import sys
+        FormattingHandler.errors.append(repr(sys.exc_info()[1])[:200])
+
+
+class debug_logging:
+    """as a host application with logging configured at DEBUG and a handler that formats each record"""
+
+    def __enter__(self):
+        import logging
+
+        root = logging.getLogger()
+        self.prev = (root.manager.disable, root.level, list(root.handlers))
+        root.handlers[:] = [FormattingHandler()]
+        root.setLevel(logging.DEBUG)
+        logging.disable(logging.NOTSET)
+
+    def __exit__(self, *exc):
+        import logging
+
+        root = logging.getLogger()
+        logging.disable(self.prev[0])
+        root.setLevel(self.prev[1])
+        root.handlers[:] = self.prev[2]
+        return False
+
+
+def mutate_deep(x, depth=0):
+    """edit every container reachable from x in place (what middleware / a consumer of a message may do)"""
+    if isinstance(x, dict):
+        for k in list(x):
+            mutate_deep(x[k], depth + 1)
+        x["_meta"] = {"edited-by-consumer": depth}
+    elif isinstance(x, list):
+        for y in x:
+            mutate_deep(y, depth + 1)
+        x.append({"edited-by-consumer": depth})
+
+
+def mutate_emitted(objs):
+    for m in objs:
+        if isinstance(m, dict):
+            for k in ("params", "result", "error"):
+                mutate_deep(m.get(k))
+        else:
+            for k in ("params", "result", "error"):
+                try:
+                    mutate_deep(getattr(m, k, None))
+                except Exception:  # noqa: BLE001
+                    pass
+
+
+_EMITTED_HOOK = None
+
+
 def run_case(case):
-    """case = {"emitter": name, "args": {...}} -> observation"""
+    """case = {"emitter", "args", "debug_log": bool, "repeat_mutate": k, "env": {...}} -> observation.
+    repeat_mutate=k: the emitter runs k+1 times with the same arguments; after each of the first k runs the payload
+    containers of what it emitted are edited in place (both emissions stay alive).  The observation is the LAST run's:
+    it must look exactly like a first run."""
+    import os
+
+    env = case.get("env") or {}
+    saved = {k: os.environ.get(k) for k in env}
+    os.environ.update(env)
+    try:
+        if case.get("debug_log"):
+            with debug_logging():
+                return _run_repeated(case)
+        return _run_repeated(case)
+    finally:
+        for k, v in saved.items():
+            if v is None:
+                os.environ.pop(k, None)
+            else:
+                os.environ[k] = v
+
+
+def _run_repeated(case):
+    global _EMITTED_HOOK
+    k = int(case.get("repeat_mutate") or 0)
+    keep, first = [], None
+    for _ in range(k):
+        got = []
+        _EMITTED_HOOK = got.append
+        try:
+            o1 = _run_case(case)
+        finally:
+            _EMITTED_HOOK = None
+        if first is None:
+            first = [e.get("dump", {}).get("wire") for e in o1.get("emitted", [])]
+        for objs in got:
+            mutate_emitted(objs)
+            keep.append(objs)  # stay alive while the next emission is built
+    o = _run_case(case)
+    if k:
+        o["repeated"] = k
+        o["first_wires"] = first
+    return o
+
+
+def _run_case(case):
     D = drivers()
     ent = D.get(case["emitter"])
     if ent is None:
